@@ -54,6 +54,19 @@ def gen_ops(tier, rng):
         ops.append((f"idx {o} 2 13 {rng.choice([2752, 2752*2+40, 65536+40, 1048616])} {rng.randrange(1, 1<<30)} 0,1", {"cat": "idx-codegen", "p": 13}))
         S = sorted(rng.sample(range(d), rng.randint(1, d)))
         ops.append((f"upd {o} {d} {p} {rng.choice(sizes[:17])} {rng.randrange(1, 1<<30)} {lst(S)} -", {"cat": "upd", "p": p}))
+    # Leopard GF8 / GF16 under every option row and build: the portable butterflies (AVX2/SSSE3 off, noasm, nopshufb) must
+    # give the bytes of the SIMD ones - Encode and every Reconstruct mode
+    leoshapes = [(2, 2), (5, 3), (10, 4), (17, 8), (40, 20), (3, 9), (1, 1)]
+    for o in OPTMATRIX:
+        for fam in ["leo8", "leo16"]:
+            for (d, p) in (leoshapes if tier == "thorough" else rng.sample(leoshapes, 3)):
+                size = rng.choice([64, 640, 4160, 32768 + 64] if d + p <= 14 else [64, 640, 4160])
+                ops.append((f"enc {fam} {o} {d} {p} {size} {rng.randrange(1, 1<<30)}", {"cat": "enc-" + fam, "p": p}))
+                E = sorted(rng.sample(range(d + p), rng.randint(1, p)))
+                mode = rng.choice(["all", "all", "data"])
+                ops.append((f"rec {fam} {o} {d} {p} {size} {rng.randrange(1, 1<<30)} {mode} {lst(E)} - nil", {"cat": "rec-" + fam, "p": p}))
+            d, p = rng.choice(leoshapes)
+            ops.append((f"ver {fam} {o} {d} {p} 128 {rng.randrange(1, 1<<30)} {rng.randrange(d+p)} {rng.randrange(128)} 77", {"cat": "ver-" + fam, "p": p}))
     if tier == "thorough":
         for size in [(10 << 20) - 64, (10 << 20) + 64]:
             ops.append((f"enc default - 11 4 {size} 7", {"cat": "enc-10MiB", "p": 4}))
